@@ -230,6 +230,19 @@ func (m Money) Value() (driver.Value, error) { return m.Cents, nil }
 type Tags []string // slice-kinded driver.Valuer
 func (t Tags) Value() (driver.Value, error) { return strings.Join(t, ","), nil }
 
+// Pair: an ARRAY-kinded driver.Valuer (as uuid.UUID is); one value, never a list
+type Pair [2]string
+
+func (p Pair) Value() (driver.Value, error) { return p[0] + p[1], nil }
+
+// BinKey: a driver.Valuer whose Value() is a []byte (a binary key)
+type BinKey string
+
+func (k BinKey) Value() (driver.Value, error) { return []byte(k), nil }
+
+// Level: a named type of kind uint8 (the usual small enum); []Level / [2]Level are LISTS, not byte strings
+type Level uint8
+
 type OptStr struct{ P *string } // Value() may be nil
 func (o OptStr) Value() (driver.Value, error) {
 	if o.P == nil {
@@ -294,6 +307,8 @@ func goScalar(s Sc, variant string) interface{} {
 			return &x
 		case "uint8":
 			return uint8(s.I)
+		case "level":
+			return Level(s.I)
 		}
 		return int(s.I)
 	case "str":
@@ -343,6 +358,10 @@ func goDrv(s Sc, variant string) interface{} {
 		return Money{s.I}
 	case "tags": // s.S = joined tags
 		return Tags(strings.Split(s.S, ","))
+	case "pair": // s.S = the two halves, concatenated
+		return Pair{s.S[:len(s.S)/2], s.S[len(s.S)/2:]}
+	case "binkey":
+		return BinKey(s.S)
 	case "optstr":
 		if s.K == "null" {
 			return OptStr{}
@@ -399,6 +418,18 @@ func (g Gctx) goList(v V) interface{} {
 		out := make([]MyStr, len(v.L))
 		for i, x := range v.L {
 			out[i] = MyStr(x.Sc.S)
+		}
+		return out
+	case "[]level":
+		out := make([]Level, len(v.L))
+		for i, x := range v.L {
+			out[i] = Level(x.Sc.I)
+		}
+		return out
+	case "[2]level":
+		var out [2]Level
+		for i, x := range v.L {
+			out[i] = Level(x.Sc.I)
 		}
 		return out
 	case "[2]int64":
